@@ -4,7 +4,7 @@ Miri (many seeds = many schedules) and under ThreadSanitizer.  Used by the thoro
 import os, re, subprocess, time, json, hashlib
 from .lib import build
 
-MIRI_SEEDS = int(os.environ.get('VERIF_MIRI_SEEDS', '13'))
+MIRI_SEEDS = int(os.environ.get('VERIF_MIRI_SEEDS', '7'))
 
 
 def _run(cmd, env, cwd, timeout):
